@@ -33,6 +33,13 @@ Expected(e) ==
     [] e.op = "agn"         ->
          /\ e.clef = ClefText(e.k, e.mark) /\ e.inp = Spell(P(e))
          /\ e.ok /\ e.out = Agnostic(e.k, P(e))
+    \* ---- beyond the listed properties (bin/extras) ----
+    [] e.op = "american_out" ->                               \* kern in, American out
+         LET p == P(e)  q == RefT(p, IvOfName[e.iv], e.up) IN Spellable(q) => (e.ok /\ e.out = AmericanSpell(q))
+    [] e.op = "american_in"  ->                               \* American in, kern out (unison): the same pitch
+         e.inp = AmericanSpell(P(e)) /\ e.ok /\ e.out = Spell(P(e))
+    [] e.op = "distance"     -> e.ok /\ e.val = Distance(P(e), [l |-> e.l2, a |-> e.a2, o |-> e.o2])
+    [] e.op = "compare"      -> e.lt = PitchLess(P(e), [l |-> e.l2, a |-> e.a2, o |-> e.o2]) /\ e.gt = PitchLess([l |-> e.l2, a |-> e.a2, o |-> e.o2], P(e))
     [] OTHER -> FALSE
 Init == tid \in 1..Len(Log) /\ l = 1 /\ fails = <<>>
 Step == /\ l <= Len(Log[tid]) /\ l' = l + 1 /\ UNCHANGED tid
